@@ -6,6 +6,7 @@ import json, os, time
 from collections import Counter
 from harness import common, tlc
 from harness.sched import runner
+from harness.engines import schedmt
 
 # property -> scenario mix (name, weight, job options) and the model-checking configs that carry its invariants
 PROPS = {
@@ -15,7 +16,9 @@ PROPS = {
     "C03": dict(mix=[("plain", 0.35, {}), ("plain", 0.35, {"mode": "any"}),
                      ("cmds", 0.3, {"kinds": ["reload"], "features": {"queues": "always"}, "stopreq": False})],
                 mc=["MC_base", "MC_msgs:MC_msgs_live"]),
-    "C04": dict(mix=[("plain", 1.0, {"features": {"max_fcp": 5, "future": True}})], mc=["MC_runahead", "MC_runahead:MC_runahead_live"]),
+    "C04": dict(mix=[("plain", 0.5, {"features": {"max_fcp": 5, "future": True}}),
+                     ("plain", 0.5, {"features": {"max_fcp": 5, "future": "always", "max_tasks": 3}})],
+                mc=["MC_runahead", "MC_runahead:MC_runahead_live", "MC_future", "MC_future:MC_future_live"]),
     "C05": dict(mix=[("plain", 0.6, {"features": {"queues": "always", "max_tasks": 5}}),
                      ("cmds", 0.4, {"features": {"queues": "always"}, "kinds": ["trigger"]})], mc=["MC_queue", "MC_base"]),
     "C07": dict(mix=[("plain", 0.4, {"features": {"future": True}}), ("stopcmds", 0.3, {}),
@@ -87,6 +90,7 @@ def run(ctx, props_cfg=None):
     cov["exec_wall_s"], cov["tlc_trace_wall_s"] = round(t_exec, 1), round(t_tlc, 1)
     cov["checker_cmd"] = "tlc -workers 1 Run.tla (EXTENDS SchedTrace, TraceData) per chunk of recorded runs"
     model_check(ctx, cfg)
+    schedmt.run_mt(ctx)
     ctx.assumptions += [
         "job runner, job messages, polls and the wall clock are simulated by the harness (harness/sched/env.py); "
         "the real Scheduler, task pool, events manager, job manager and sqlite DB code run unmodified from /repo",
@@ -167,6 +171,8 @@ def model_check(ctx, cfg):
 
 def replay(ctx, data):
     rep = data["replay"]
+    if "mt" in rep:
+        return schedmt.replay_mt(ctx, rep["mt"])
     job = dict(rep["job"])
     job["scratch"] = ctx.scratch
     r = runner.one_run(job)
